@@ -103,6 +103,37 @@ func TestC17(t *testing.T) {
 				}
 			}
 		}
+		// 1b. alignment: ASCII runs of every length 0..40, then one of 16 multi-byte / invalid
+		// sequences, then an ASCII tail of length 0..12 (8-bytes-at-a-time scanners)
+		if e.enumStage("alignment", "ASCII run of length 0..40 + one of 16 valid/invalid sequences + ASCII tail of length 0..12", true) {
+			seqs := []string{"\xff", "\x80", "\xc3", "\xc3\xa9", "\xe2\x82", "\xe2\x82\xac", "\xf0\x9f\x98", "\xf0\x9f\x98\x80", "\xed\xa0\x80", "\xc0\xaf", "\xf4\x90\x80\x80", "\xc3\xa9\xff", "\xff\xc3\xa9", "\xef\xbf\xbd", "\xef\xbf", "\xfe\xfe\xff\xff"}
+			buf := make([]byte, 0, 80)
+			idx := 0
+		al:
+			for L := 0; L <= 40; L++ {
+				for _, sq := range seqs {
+					idx++
+					if !e.cfg.Mine(idx) {
+						continue
+					}
+					for T := 0; T <= 12; T++ {
+						buf = buf[:0]
+						for i := 0; i < L; i++ {
+							buf = append(buf, byte('a'+i%26))
+						}
+						buf = append(buf, sq...)
+						for i := 0; i < T; i++ {
+							buf = append(buf, 'z')
+						}
+						r.Begin("string", buf)
+						if err := core.Catch(func() error { return evalStr("alignment", buf) }); err != nil {
+							r.Fail(&core.Case{Prop: "C17", Kind: "string", In: append([]byte(nil), buf...)}, err)
+							break al
+						}
+					}
+				}
+			}
+		}
 		// 2. longer strings from pieces and free bytes
 		e.rapidStage("long-strings", "rapid", e.cfg.N(40000, 3000000), func(rt *rapid.T) {
 			var b []byte
